@@ -161,6 +161,22 @@ def _bytes(val):
     raise ValueError(f"not bytes: {val!r}")
 
 
+OLDS: dict = {}
+
+
+def _compile_with_old(e):
+    """clause text -> code object in which old(<expr>) reads the snapshot taken before the call"""
+    tree = ast.parse(e.strip(), mode="eval")
+
+    class Rw(ast.NodeTransformer):
+        def visit_Call(self, node):  # noqa: N802
+            self.generic_visit(node)
+            if isinstance(node.func, ast.Name) and node.func.id == "old":
+                return ast.Subscript(ast.Name("__olds__", ast.Load()), ast.Constant(ast.unparse(node.args[0])), ast.Load())
+            return node
+    return compile(ast.fix_missing_locations(Rw().visit(tree)), "<clause>", "eval")
+
+
 def main(path):
     with open(path) as f:
         rec = json.load(f)
@@ -181,7 +197,8 @@ def main(path):
                 e2.update(ev=ev, args=ev.args)
                 for g in guards:
                     try:
-                        if not eval(g, e2):  # noqa: S307
+                        e2["__olds__"] = OLDS
+                        if not eval(_compile_with_old(g), e2):  # noqa: S307
                             failed_guards.append(f"guard@{pat}: {g}")
                     except Exception as e:  # noqa: BLE001
                         failed_guards.append(f"guard@{pat}: {g} raised {e!r}")
@@ -271,8 +288,8 @@ def main(path):
             print(json.dumps(out))
             return
     # old() snapshots
-    olds = {}
-    for e in list(contract["ensures"]) + list(contract["ensures_raise"]):
+    olds = OLDS
+    for e in list(contract["ensures"]) + list(contract["ensures_raise"]) + [g for gs in contract["on_effect"].values() for g in gs]:
         if isinstance(e, str):
             for n in ast.walk(ast.parse(e.strip(), mode="eval")):
                 if isinstance(n, ast.Call) and isinstance(n.func, ast.Name) and n.func.id == "old":
